@@ -74,7 +74,7 @@ def variants(rep, spec, base):
 	rep.count('variants-checked', 6)
 
 
-def visiting(rep, spec, py):
+def visiting(rep, spec, py, init=None):
 	"""Documented sequence of events, evaluated on the real code: in each phase every node is processed exactly once per period;
 	orders are generated downstream-to-upstream (a node after all its successors), shipments upstream-to-downstream (after all its predecessors)."""
 	pos, edges, inE, outE = simlib.layout(spec)
@@ -91,6 +91,9 @@ def visiting(rep, spec, py):
 			if late:
 				bad.append('%s processed node %s before its %s %s' % (name, spec['labels'][i], 'successors' if name == 'order phase' else 'predecessors', [spec['labels'][j] for j in late]))
 	bad += simlib.oracle_disruptions(spec, py['trace'])
+	if init is not None:
+		# "serving backorders before new demand", per customer: the service bookkeeping of the documented sequence of events
+		bad += [x for x in simlib.oracle_C02(spec, py['trace'], init) if 'demand met from stock' in x]
 	if bad:
 		rep.diff('sim-trace-full', 'documented sequence of events violated on the real code: ' + '; '.join(bad[:3]), spec, py={'oseq': py['oseq'], 'sseq': py['sseq']}, oracle=True, theorem=THEOREM)
 
@@ -105,7 +108,7 @@ def run(rep, drv):
 		spec = simlib.gen_spec(rng, th)
 		r = simstream.one_case(rep, drv, 'sim-trace-full', spec, None, None, THEOREM)
 		if r is not None:
-			visiting(rep, spec, r[0])
+			visiting(rep, spec, r[0], r[2])
 			variants(rep, spec, r[0])
 
 	# random inputs: the trajectory is a function of (network, horizon, seed) - every variant above must reproduce it, for every legal seed (0 included)
@@ -124,5 +127,5 @@ def run(rep, drv):
 def replay(rep, drv, doc):
 	r = simstream.one_case(rep, drv, 'sim-trace-full', doc['case'], None, None, THEOREM)
 	if r is not None:
-		visiting(rep, doc['case'], r[0])
+		visiting(rep, doc['case'], r[0], r[2])
 		variants(rep, doc['case'], r[0])
